@@ -10,6 +10,8 @@ session is closed, and *new* Sessions read it back:
               runs off the end and the tape is rewound) is accepted once, then the file must be found
     skip-to-t for every t > 0, a fresh session asks for file t first (files before it are skipped)
     nameless  a fresh session does LOAD "CAS1:" (thorough tier)
+    untitled  fresh sessions do OPEN "CAS1:" FOR INPUT / LOAD "CAS1:" / BLOAD "CAS1:": the first file of the
+              matching type is found, the files of other types before it are skipped
 Oracle (reference model = the list of files): the "Found." message names the file with the type it
 was written with, the files before it are reported "Skipped." and no others, the content read back
 is byte-for-byte what was written (data: INPUT$ of exactly `size` bytes then EOF; programs: LIST;
@@ -220,11 +222,11 @@ def check_messages(part, case, tape, pos, t, out, what):
     return False
 
 
-def read_file(s, part, case, tape, pos, t, what, wrapped=False):
-    """Open/load file t by name with the tape at position pos; compare.  Returns new position or None
-    when reading cannot sensibly continue."""
+def read_file(s, part, case, tape, pos, t, what, wrapped=False, nameless=False):
+    """Open/load file t by name (or, nameless, as the first file of its type class) with the tape at position
+    pos; compare.  Returns new position or None when reading cannot sensibly continue."""
     kind, n = tape[t]
-    name = fname(t, kind)
+    name = b'' if nameless else fname(t, kind)
     sc = size_class(kind, n)
     after = before(tape, t)
     part.n += 1
@@ -355,6 +357,14 @@ def run_tape(part, fmt, tape, orders, case=None):
                 targets = [[t] for t in range(1, len(tape))]
             elif order == 'nameless':
                 targets = ['nameless']
+            elif order == 'untitled':
+                # no file name given: the first data file (OPEN), the first program (LOAD), the first memory image
+                # (BLOAD) is found, files of other types before it are skipped
+                targets = []
+                for cls in ('D', 'ABP', 'MN'):
+                    first = [i for i, (k, n) in enumerate(tape) if k in cls]
+                    if first:
+                        targets.append(('untitled', first[0]))
             elif order == 'wrap':
                 # a later file first, then an earlier one (it lies behind the head)
                 targets = [[t, u] for t in range(1, len(tape)) for u in range(t)]
@@ -365,6 +375,8 @@ def run_tape(part, fmt, tape, orders, case=None):
                 try:
                     if tg == 'nameless':
                         nameless(s, part, case, tape)
+                    elif tg[0] == 'untitled':
+                        read_file(s, part, case, tape, 0, tg[1], 'no-name', nameless=True)
                     else:
                         pos = 0
                         for i, t in enumerate(tg):
@@ -451,7 +463,7 @@ def legs(ctx):
     lvl = 0 if q else 2
     tapes = [((k1, n1), (k2, n2)) for k1 in KINDS for k2 in KINDS
              for n1 in boundary_sizes(k1, 1 if q else 2) for n2 in boundary_sizes(k2, lvl)]
-    out.append(Leg('pairs', [('CAS', ['order', 'skip', 'wrap'] + ([] if q else ['nameless']), ch)
+    out.append(Leg('pairs', [('CAS', ['order', 'skip', 'wrap', 'untitled'] + ([] if q else ['nameless']), ch)
                              for ch in chunked(tapes, 3 if q else 6)], work_tapes, exhaustive=True,
                    bound='2-file CAS tapes (%d): all 25 kind pairs x boundary sizes (stream length in '
                          '{0, U-1, U, U+1, 2U%s} for the first file, %s for the second; U = 255-byte record '
@@ -473,7 +485,7 @@ def legs(ctx):
     # a header written after a larger binary file (its length field is inherited from that file), then skipped
     tapes = [((k1, n1), (k2, n2), k3) for k1 in 'BPM' for n1 in sizes_near(k1, [UNIT[k1] + 1, 2 * UNIT[k1], 2 * UNIT[k1] + 1])
              for k2 in 'DA' for n2 in boundary_sizes(k2, 0) + [7] for k3 in (('D', 5), ('B', 40))]
-    out.append(Leg('after-binary', [('CAS', ['order', 'skip', 'wrap'], ch) for ch in chunked(tapes, 3)], work_tapes,
+    out.append(Leg('after-binary', [('CAS', ['order', 'skip', 'wrap', 'untitled'], ch) for ch in chunked(tapes, 3)], work_tapes,
                    exhaustive=True,
                    bound='3-file CAS tapes (%d): tokenised/protected/memory file of more than one block (stream length '
                          'U+1, 2U, 2U+1), then a data/ASCII file (0, 7, U bytes), then a data or program file; read in '
